@@ -40,10 +40,16 @@ for q in props:
     sd = len(glob.glob(os.path.join(HERE, 'seeded', q + '-*', 'patch.diff')))
     out.append('| %s | %d | %d | %d | %d | %d |' % (q, hw_m, hw_n, h_m, h_n, sd))
 nn = {}
-for d in sorted(glob.glob(os.path.join(HERE, 'neutral_seeded', '*'))):
+for d in sorted(x for x in glob.glob(os.path.join(HERE, 'neutral_seeded', '*')) if os.path.isdir(x)):
     k = os.path.basename(d)[:2]
     nn[k] = nn.get(k, 0) + len(glob.glob(os.path.join(d, 'patch*.diff')))
-out.append('\nIndependent behaviour-preserving refactorings (each checked against all 20 properties): round A (nsNN) %d, round B (nbNN) %d, round C (ncNN) %d.\n' % (nn.get('ns', 0), nn.get('nb', 0), nn.get('nc', 0)))
+out.append('\nIndependent behaviour-preserving refactorings (each checked against all 20 properties): round A (nsNN) %d, round B (nbNN) %d, round C (ncNN) %d, round D (ndNN) %d.\n' % (nn.get('ns', 0), nn.get('nb', 0), nn.get('nc', 0), nn.get('nd', 0)))
+for fn, what in (('neutral_seeded/KNOWN_NOISY.json', 'held-out refactorings known to still trip a property (reported by the self-test as NOISY-KNOWN)'),
+                 ('seeded/KNOWN_MISSED_BY_OWN_CHECK.json', 'seeded changes not reported by their own property\'s check but by a neighbouring one')):
+    pth = os.path.join(HERE, fn)
+    if os.path.exists(pth):
+        kk = json.load(open(pth))
+        out.append('%s: %s\n' % (what, ', '.join('%s (%s)' % (k, '/'.join(v.get('properties') or v.get('reported_by') or [])) for k, v in sorted(kk.items())) or 'none'))
 out.append('%d mutants and %d neutral edits in mutants/*.json.\n' % (sum(1 for m in ms if m.get('kind', 'mutant') == 'mutant'), sum(1 for m in ms if m.get('kind') == 'neutral')))
 out.append('\n## Appendix F — independently seeded changes (seeded/*/meta.json)\n')
 out.append('Written by fresh sub-agents that saw only the property text and a scratch worktree; each confirmed by `tools/seedeval.py` (builds, 11 pinned tests pass, demo fails with / passes without the change) before being kept.\n')
